@@ -3,7 +3,7 @@ import os, sys, json, hashlib
 sys.path.insert(0, os.path.join(os.path.dirname(os.path.abspath(__file__)), '..', 'lib'))
 import vcommon as V
 
-PROPS = ['props/C07.v', 'props/C07_src.v']
+PROPS = ['props/C07.v', 'props/C07_src.v', 'props/State.v']
 ASSUMPTIONS = [
     "X.509 path building and validation is Go's crypto/x509 (Certificate.Verify with the layout's root pool, the pool of layout "
     "+ caller intermediates, current time, default options incl. ExtKeyUsageServerAuth): it enters the model as the boolean chain_ok. "
